@@ -28,6 +28,10 @@ type scenario struct {
 	Seq    []string `json:"seq"`  // frame shapes after the prologue
 	Join   int      `json:"join"` // consumers join after this many events (0 = before the publisher sends anything)
 	Prolog bool     `json:"prolog_key"`
+	// Prev: an earlier publisher of the same name (same codecs, other frames) has published two GOPs and
+	// left before this one arrives, and the GOP caches are on (one GOP per protocol): nothing of it may
+	// reach this publisher's consumers
+	Prev bool `json:"prev,omitempty"`
 }
 
 type pubFrame struct {
@@ -178,6 +182,7 @@ type runCtx struct {
 	joinA    int
 	curAsc   []byte
 	compared int // frames compared with their published counterpart (vacuity guard)
+	fsFrom   int // file-system operations before this index belong to an earlier publisher
 }
 
 // firstOf: index of the first published frame of the track (-1 if none yet; a stream without that track: 0).
@@ -379,9 +384,48 @@ func run(sc scenario) (res []result, compared int, infra error) {
 		conf["hls.enable"] = true
 		conf["hls.cleanup_mode"] = 0
 	}
+	if sc.Prev {
+		conf["rtmp.gop_num"], conf["httpflv.gop_num"], conf["httpts.gop_num"] = 1, 1, 1
+	}
 	x := &runCtx{sc: sc, w: world.New(conf)}
 	defer x.w.Close()
 	var err error
+	if sc.Prev {
+		px := &runCtx{sc: sc, w: x.w, nev: 1000} // (frame contents depend on the event number: none equals a frame of the run proper)
+		px.pub, err = x.w.RtmpPublisher("live", "s")
+		if err != nil || !px.pub.Accepted() {
+			return nil, 0, fmt.Errorf("previous publisher: %v", err)
+		}
+		if sc.C.Video != "" {
+			if err := px.send(9, 0, videoSeqHeader(sc.C.Video)); err != nil {
+				return nil, 0, err
+			}
+		}
+		if sc.C.Audio == "aac" || sc.C.Audio == "aac48" {
+			px.curAsc = asc(sc.C.Audio)
+			if err := px.send(8, 0, append([]byte{0xaf, 0}, asc(sc.C.Audio)...)); err != nil {
+				return nil, 0, err
+			}
+		}
+		shapes := []string{"K", "A", "P1", "A", "K", "A", "P1", "A"}
+		if sc.C.Video == "" {
+			shapes = []string{"A", "A", "A", "A"}
+		} else if sc.C.Audio == "" {
+			shapes = []string{"K", "P1", "K", "P1"}
+		}
+		for _, sh := range shapes {
+			if err := px.event(sh); err != nil {
+				return nil, 0, err
+			}
+		}
+		px.pub.Close()
+		if err := x.w.Settle(); err != nil {
+			return nil, 0, err
+		}
+	}
+	if x.w.FS != nil {
+		x.fsFrom = len(x.w.FS.OpsCopy())
+	}
 	x.pub, err = x.w.RtmpPublisher("live", "s")
 	if err != nil || !x.pub.Accepted() {
 		return nil, 0, fmt.Errorf("publisher: %v", err)
@@ -502,8 +546,8 @@ func run(sc scenario) (res []result, compared int, infra error) {
 		var all []byte
 		cur := map[string][]byte{}
 		var order []string
-		for _, op := range x.w.FS.OpsCopy() {
-			if !strings.HasSuffix(op.Path, ".ts") {
+		for i, op := range x.w.FS.OpsCopy() {
+			if !strings.HasSuffix(op.Path, ".ts") || i < x.fsFrom {
 				continue
 			}
 			switch op.Kind {
@@ -969,6 +1013,25 @@ func main() {
 			}
 		}
 		rec(nil)
+	}
+	// after an earlier publisher of the same name (GOP caches on): sequences of <= 2 shapes, every join point
+	for _, c := range cs {
+		sh := shapesFor(c)
+		var seqs [][]string
+		seqs = append(seqs, nil)
+		for _, a := range sh {
+			seqs = append(seqs, []string{a})
+			if !r.Quick() {
+				for _, b := range sh {
+					seqs = append(seqs, []string{a, b})
+				}
+			}
+		}
+		for _, seq := range seqs {
+			for j := 0; j <= len(seq)+1; j++ {
+				cases = append(cases, scenario{C: c, Seq: seq, Join: j, Prolog: true, Prev: true})
+			}
+		}
 	}
 	// size sweeps: every residue of the TS packet payload size for video frames and audio PES totals
 	for _, c := range cs {
